@@ -301,6 +301,23 @@ func WritesNothingShared(a string) bool { return true }
 
 func Repeat(n int) int { return n }
 
+// Sink is a hash.Hash that records the bytes it is fed.
+type Sink struct{ B []byte }
+
+func (s *Sink) Write(p []byte) (int, error) { s.B = append(s.B, p...); return len(p), nil }
+func (s *Sink) Sum(b []byte) []byte         { return append(b, s.B...) }
+func (s *Sink) Reset()                      { s.B = nil }
+func (s *Sink) Size() int                   { return len(s.B) }
+func (s *Sink) BlockSize() int              { return 1 }
+func StreamEq(a, b *Sink) bool              { return bytes.Equal(a.B, b.B) }
+
+func MaybeNilIf[T any](isNil bool, p *T) *T {
+	if isNil {
+		return nil
+	}
+	return p
+}
+
 func P[X any](v X) *X { return &v }
 
 // DeepEq: graph isomorphism from the two roots. nil and empty slices are
